@@ -31,7 +31,7 @@ Together: total gains + closing cost of a history are the same whatever splits i
   ledger and its twin are validator-clean, have valid dates and are accepted, a security without capital
   events whose SELL lines fall on different days has, leg for leg and in order, the same rule, allowable
   cost and acquisition date in both, and the same closing quantity and cost.
-  Outside that class (capital events: known finding D5; several SELL lines on one day) the twin is
+  Outside that class (capital events — where D5 used to break the twin until fix 80905a9 —, several SELL lines on one day) the twin is
   compared on the real code only. The twin keeps the split line as a ratio-1 split (the property removes
   it: a day with no trade and factor 1 is transparent, `C10_factor_one_day_is_transparent`).
 -/
